@@ -472,6 +472,7 @@ func callSSA(i *interpreter, caller *frame, callpos token.Pos, fn *ssa.Function,
 			i.x.exts[name]++
 			saved := i.top
 			i.top = fr
+			args = normaliseStrArgs(args)
 			r := ext(fr, args)
 			i.top = saved
 			if _, fall := r.(interpretInstead); !fall {
